@@ -8,8 +8,9 @@
               if r := recover(); r != nil {
                   termErr, ok := r.(ContextTerminationError)
                   if !ok { panic(r) }                 // foreign panic ("Too much mem released") goes on
-                  err = termErr                       // a kill becomes an ordinary return value
-              }
+                  err = termErr                       // a kill becomes an ordinary return value …
+                  t.propagateTermination(ctx, termErr) // … unless the limit was inherited: then the
+              }                                       //   parent is terminated too (panics again)
           }()
           err = f()
           if err != nil { t.setStatus(StatusError) }
@@ -35,7 +36,7 @@ inductive Item where
 inductive Exit where
   | done        -- ran to its end
   | error       -- returned a Lua error
-  | killed      -- a ContextTerminationError panic is unwinding
+  | killed (r : TermRes)   -- a ContextTerminationError panic (recording resource `r`) is unwinding
   | crashed     -- a foreign Go panic is unwinding
   deriving DecidableEq, Repr, Inhabited
 
@@ -62,6 +63,23 @@ structure Acc where
 
 def setError (s : St) : St := { s with cur := { s.cur with status := StatusError } }
 
+/-- the state the deferred PopContext sees: `t.setStatus(StatusError)` was executed iff f returned an error -/
+def afterBody (ex : Exit) (s : St) : St := if ex = .error then setError s else s
+
+def mkResult (ex : Exit) (s2 : St) : CallResult := ⟨s2.depth, s2.cur.popped.status, s2.cur.used, ex⟩
+
+/-- what CallContext does once its deferred PopContext has restored the parent `p` (stack `p :: ps`):
+a foreign panic is re-raised; a termination is recovered and, if the limit was inherited,
+propagated to `p` (then the caller never sees `ctx`); otherwise `ctx` is handed back -/
+def afterPop (a1 : Acc) (ex : Exit) (s2 : St) (p : Frame) (ps : List Frame) : Acc × Exit :=
+  match ex with
+  | .crashed => ({ a1 with st := ⟨p, ps⟩ }, .crashed)
+  | .killed res =>
+    match p.propagate s2.cur.popped res with
+    | (q, .ok) => ({ a1 with st := ⟨q, ps⟩, results := mkResult ex s2 :: a1.results }, .done)
+    | (q, _) => ({ a1 with st := ⟨q, ps⟩ }, .killed res)
+  | _ => ({ a1 with st := ⟨p, ps⟩, results := mkResult ex s2 :: a1.results }, .done)
+
 mutual
   /-- run a body in the active context -/
   def runBody (a : Acc) : List Item → Acc × Exit
@@ -79,19 +97,15 @@ mutual
       let a1 := { a with st := s1, events := ⟨a.st.depth, o, out⟩ :: a.events }
       match out with
       | .ok => (a1, .done)
-      | .terminated => (a1, .killed)
+      | .terminated => (a1, .killed (killCause a.st.cur o))
       | .crash => (a1, .crashed)
     | .call d body =>
       let (a1, ex) := runBody { a with st := push a.st d } body
-      let s2 := if ex = .error then setError a1.st else a1.st
+      let s2 := afterBody ex a1.st
       let (s3, po) := pop s2
       match po with
-      | .ok =>
-        let r : CallResult := ⟨s2.depth, s2.cur.popped.status, s2.cur.used, ex⟩
-        match ex with
-        | .crashed => ({ a1 with st := s3 }, .crashed)       -- re-panicked: the caller never sees `ctx`
-        | _ => ({ a1 with st := s3, results := r :: a1.results }, .done)
-      | .terminated => ({ a1 with st := s3 }, .killed)      -- the deferred pop itself panicked
+      | .ok => afterPop a1 ex s2 s3.cur s3.parents
+      | .terminated => ({ a1 with st := s3 }, .killed (popCause s2.parents.head! s2.cur))  -- the deferred pop itself panicked
       | .crash => ({ a1 with st := s3 }, .crashed)
 end
 
@@ -116,9 +130,60 @@ end
 /-- the status a context reports is the way its body really ended -/
 def Truthful (r : CallResult) : Prop :=
   (r.exit = .done → r.status = StatusDone) ∧ (r.exit = .error → r.status = StatusError) ∧
-  (r.exit = .killed → r.status = StatusKilled) ∧ r.exit ≠ .crashed
+  ((∃ res, r.exit = .killed res) → r.status = StatusKilled) ∧ r.exit ≠ .crashed
 
 /-- run one top-level item from a state -/
 def exec (s : St) (it : Item) : Acc × Exit := runItem (Acc.start s) it
+
+/-! ### programs made of requests and limit-less brackets (pcall / xpcall / callcontext{}) -/
+
+mutual
+  /-- only CPU requests and brackets without any limit, soft limit or flag of their own -/
+  def Item.pcallCpu : Item → Bool
+    | .op (.reqCpu _) => true
+    | .op _ => false
+    | .err => false
+    | .call d body => decide (d = CtxDef.none) && bodyPcallCpu body
+  def bodyPcallCpu : List Item → Bool
+    | [] => true
+    | it :: rest => it.pcallCpu && bodyPcallCpu rest
+end
+
+mutual
+  /-- only memory requests / releases and limit-less brackets -/
+  def Item.pcallMem : Item → Bool
+    | .op (.reqMem _) => true
+    | .op (.relMem _) => true
+    | .op _ => false
+    | .err => false
+    | .call d body => decide (d = CtxDef.none) && bodyPcallMem body
+  def bodyPcallMem : List Item → Bool
+    | [] => true
+    | it :: rest => it.pcallMem && bodyPcallMem rest
+end
+
+mutual
+  /-- CPU the program asks for when nothing stops it -/
+  def Item.cost : Item → Nat
+    | .op (.reqCpu n) => n.toNat
+    | .op _ => 0
+    | .err => 0
+    | .call _ body => bodyCost body
+  def bodyCost : List Item → Nat
+    | [] => 0
+    | it :: rest => it.cost + bodyCost rest
+end
+
+mutual
+  /-- every CPU amount can be added to a counter below `B` without wrapping -/
+  def Item.fits (B : Nat) : Item → Prop
+    | .op (.reqCpu n) => n.toNat + B ≤ 2 ^ 64
+    | .op _ => True
+    | .err => True
+    | .call _ body => bodyFits B body
+  def bodyFits (B : Nat) : List Item → Prop
+    | [] => True
+    | it :: rest => it.fits B ∧ bodyFits B rest
+end
 
 end GoluaVerif.Model.CallCtx
